@@ -123,6 +123,15 @@ def direct_finalisation(case, obs):
     return fails
 
 
+def direct_idle(case, obs):
+    """C09: once the recording is gone, the shared part of the recorder is idle (no parameters, no forced sampling)"""
+    fails = []
+    if not obs["ar"] and (obs["ap"] or obs["fs"]):
+        fails.append(("race-not-idle", "%s: the recording is gone but %s" % (
+            describe(case), "its parameters are still set" if obs["ap"] else "forced sampling is still on")))
+    return fails
+
+
 def features(case):
     if "sched" in case:
         return {"race", "race-arbitrary-schedule", "race-threads:%d" % len(case["methods"])} | \
